@@ -3,7 +3,9 @@ import LenaModel.Model.C03
 /-! Model driver for C03.  Requests (one JSON object per line):
 
   {"op":"run","brs":[B..],"flow":[ints],"bufsizes":[n|null..],"copy_buf":bool}
-      -> {"runs":[{"out":[V..],"inv":[[E..]..],"assert":bool}..]}   one entry per bufsize
+      -> {"runs":[{"out":[V..],"inv":[[E..]..],"assert":bool,"blocks":[[V..]..],"spec_out":[V..]}..]}
+         one entry per bufsize; "out"/"inv" from the transcribed loops (`Split.run`, `Split.runTrace`),
+         "blocks"/"spec_out" from the specification side (`blocks`, `Split.schedule`)
   {"op":"methods","brs":[B..],"blocks":[[ints]..]}
       -> {"methods":{fill,compute,request,callable,empty_run}, "call":[V..]|{"e":..},
           "fc":{"stopped":bool,"out":[V..]} | null, "fr":{"stopped":bool,"outs":[[V..]..]} | null}
@@ -14,6 +16,7 @@ import LenaModel.Model.C03
 
   B = {"k":"src","n":k} | {"k":"fc","stop":n|null,"late":bool,"items":bool} | {"k":"fr","stop":n|null,"late":bool}
     | {"k":"sq","v":"map"|"mapEnd"|"even"|"sumBlock"|"dup"|"running"|"lam"} | {"k":"sum"}
+    | {"k":"nest","inner":[B..]}   (op "run" only: a common-type Split as a branch)
   O = {"t":"source"|"fcseq"|"frseq"|"seq"} | {"t":"el","caps":"fcqrkib"-subset} | {"t":"tuple","els":["caps"..]}
       caps letters: f fill, c compute, q request, r run, k callable, i fill_into, b _can_break_flow
   V = int | string | [V..];  E = ["call"] | ["fill",x,stopped] | ["compute"] | ["request"] | ["run",[x..]] -/
@@ -58,6 +61,13 @@ def bspec? (j : Json) : Option BSpec :=
 
 def brs? (j : Json) : Option (List BSpec) := (arr? (getD j "brs")).bind (fun a => a.toList.mapM bspec?)
 
+def ospec? (j : Json) : Option OSpec :=
+  match str? (getD j "k") with
+  | some "nest" => ((arr? (getD j "inner")).bind (fun a => a.toList.mapM bspec?)).map OSpec.nest
+  | _ => (bspec? j).map OSpec.plain
+
+def obrs? (j : Json) : Option (List OSpec) := (arr? (getD j "brs")).bind (fun a => a.toList.mapM ospec?)
+
 def flow? (j : Json) : Option (List V) := (intList? j).map (fun xs => xs.map V.int)
 
 def caps? (s : String) : ElCaps :=
@@ -86,21 +96,25 @@ def methodsJson (m : Methods) : Json :=
   Json.mkObj [("fill", m.fill), ("compute", m.compute), ("request", m.request),
     ("callable", m.callable), ("empty_run", m.emptyRun)]
 
-def runOne (brs : List (Branch BState V)) (copyBuf : Bool) (flow : List V) (bs : Option Nat) : Json :=
-  let s : Split BState V := { branches := brs, bufsize := bs, copyBuf := copyBuf }
+def runOne {σ : Type} (brs : List (Branch σ V)) (copyBuf : Bool) (flow : List V) (bs : Option Nat) : Json :=
+  let s : Split σ V := { branches := brs, bufsize := bs, copyBuf := copyBuf }
   let tr := s.runTrace flow
   let inv := brs.map (fun b => ofList evJson (invocations b.id tr))
   Json.mkObj [("out", ofList vJson (s.run flow)), ("inv", Json.arr inv.toArray),
+    ("blocks", ofList (ofList vJson) (blocks bs flow)),
+    ("spec_out", ofList vJson (if brs.isEmpty then flow else outputs (s.schedule flow))),
     ("assert", Json.bool (tr.any (fun e => match e with | .assertFail => true | _ => false)))]
 
 def handle (j : Json) : Json :=
   match str? (getD j "op") with
   | some "run" =>
-    match brs? j, flow? (getD j "flow"), (arr? (getD j "bufsizes")).bind (fun a => a.toList.mapM optNat),
+    match obrs? j, flow? (getD j "flow"), (arr? (getD j "bufsizes")).bind (fun a => a.toList.mapM optNat),
         bool? (getD j "copy_buf") with
-    | some sp, some flow, some bss, some cb =>
-      let brs := mkHarnessBranches 0 sp
-      Json.mkObj [("runs", ofList (runOne brs cb flow) bss)]
+    | some osp, some flow, some bss, some cb =>
+      -- without a nested Split the branches are the harness elements themselves (`mkHarnessBranches`)
+      match osp.mapM (fun o => match o with | .plain sp => some sp | .nest _ => none) with
+      | some sp => Json.mkObj [("runs", ofList (runOne (mkHarnessBranches 0 sp) cb flow) bss)]
+      | none => Json.mkObj [("runs", ofList (runOne (mkOuterBranches 0 osp) cb flow) bss)]
     | _, _, _, _ => err "bad run args"
   | some "methods" =>
     match brs? j, (arr? (getD j "blocks")).bind (fun a => a.toList.mapM flow?) with
